@@ -34,4 +34,51 @@ func collectCallbacks(ev *core.Evaluator, pkAny interface{}, fdAny interface{}, 
 		}
 		return false
 	})
+	// callbacks filled by a loop over a literal list of events: for _, e := range []T{A, B} { callbacks[e.String()] = f }
+	ast.Inspect(fd.Body, func(n ast.Node) bool {
+		rs, ok := n.(*ast.RangeStmt)
+		if !ok {
+			return true
+		}
+		lit, ok := rs.X.(*ast.CompositeLit)
+		val, _ := rs.Value.(*ast.Ident)
+		if !ok || val == nil {
+			return true
+		}
+		fills := false
+		ast.Inspect(rs.Body, func(m ast.Node) bool {
+			as, ok := m.(*ast.AssignStmt)
+			if !ok || len(as.Lhs) != 1 {
+				return true
+			}
+			ix, ok := as.Lhs[0].(*ast.IndexExpr)
+			if !ok {
+				return true
+			}
+			t := pk.TypesInfo.TypeOf(ix.X)
+			if t == nil || !strings.HasSuffix(t.String(), "looplab/fsm.Callbacks") {
+				return true
+			}
+			// the key is the loop element (e, e.String(), string(e))
+			uses := false
+			ast.Inspect(ix.Index, func(k ast.Node) bool {
+				if id, ok := k.(*ast.Ident); ok && pk.TypesInfo.ObjectOf(id) == pk.TypesInfo.ObjectOf(val) {
+					uses = true
+				}
+				return true
+			})
+			if uses {
+				fills = true
+			}
+			return true
+		})
+		if fills {
+			for _, el := range lit.Elts {
+				if s, ok := ev.String(pk, el); ok {
+					out[s] = true
+				}
+			}
+		}
+		return true
+	})
 }
